@@ -59,6 +59,10 @@ class SimThread:
         return "<SimThread %s %s>" % (self.role, self.state)
 
 
+_STATE_ID = {NEW: 0, RUNNABLE: 1, BLOCKED: 2, DONE: 3}
+_KIND_ID = {None: 0, "get": 1, "join": 2, "sleep": 3, "stall": 4, "ext": 5,
+            "putwait": 6, "lock": 7, "event": 8}
+
 _OPID = {}
 
 
@@ -142,6 +146,7 @@ class Sim:
         self.inflight = 0
         self.boost = None  # [SimThread, remaining decisions]
         self.sleep_interrupt = None
+        self.burst_left = 0
         self.stall_timeouts = 0
         self.stall_timeout_cap = cfg.get("stall_timeout_cap", 60)
 
@@ -353,6 +358,15 @@ class Sim:
             return run[0]
         if self.policy == "pct":
             return max(run, key=lambda t: (t.prio, -t.tid))
+        if self.policy == "burst":
+            # coarse-grained interleavings (time slices): the running thread
+            # keeps the baton for a drawn number of decisions
+            cur = self.cur
+            if self.burst_left > 0 and cur is not None and cur in run:
+                self.burst_left -= 1
+                return cur
+            self.burst_left = (1, 3, 10, 40, 200)[self.tape.draw(5)]
+            return run[self.tape.draw(len(run))]
         if self.policy == "starve" and self.decisions <= self.starve_k:
             rest = [t for t in run if not t.role.startswith(self.starve)]
             if rest and len(rest) < len(run):
@@ -384,6 +398,13 @@ class Sim:
         if nxt is me and not final:
             return
         self.switches += 1
+        # abstract state: per-thread (state, what it blocks on) + messages in
+        # flight capped at 3
+        ah = min(self.inflight, 3)
+        for t in self.threads:
+            ah = (ah * 31 + _STATE_ID[t.state] * 7
+                  + _KIND_ID.get(t.block_kind, 6)) & MASK64
+        self.state_hashes.add(ah)
         if self.inflight > 0:
             self.counters["switch_inflight"] = \
                 self.counters.get("switch_inflight", 0) + 1
@@ -575,6 +596,12 @@ def _sim_start(self):
             inbox.name = role
         st = sim.spawn(role, self.run, owner=self)
         self._sim_thread = st
+        # what a started thread looks like from outside
+        try:
+            self._ident = 1_000_000 + st.tid
+            self._started.set()
+        except Exception:
+            pass
         sim.step("start", role)
         return None
     return _ORIG_START(self)
